@@ -421,7 +421,7 @@ func argValue(l leaf, seed uint64) reflect.Value {
 		}
 		return reflect.ValueOf(m)
 	case clIntSlice, clUintSlice:
-		n := int(r.next()%3) + 1 // an empty argument is not a valid integer list
+		n := int(r.next()%3) + 1 // empty integer lists come from C12Arg.Empty
 		s := reflect.MakeSlice(l.T, n, n)
 		for i := 0; i < n; i++ {
 			s.Index(i).Set(shape.MakeValue(l.T.Elem(), r.next()|1, shape.ValueOpts{}))
